@@ -66,10 +66,15 @@ Theorem C07_rmint_variants_agree_on_every_input : Agree_all_stmt.           Proo
 Print Assumptions C07_rmint_variants_agree_on_every_input.
 Theorem C07_stored_form_below_p_every_operation : Stored_form_stmt.         Proof. exact Stored_form. Qed.
 Print Assumptions C07_stored_form_below_p_every_operation.
-(* refuted: the comment of ruinvmod.h "if b is not invertible, a = 0" (inv_mod 3 mod 9 = 1), and the body of rmsub.h
-   sub(a, b, c) before fix-6 run with the destination being b (p = 101, b = 5, c = 7: 188) *)
-Theorem C07_inv_mod_zero_for_nonunits_refuted : ~ inv_mod_nonunit_is_zero_stmt.  Proof. exact inv_mod_nonunit_is_zero_refuted. Qed.
-Print Assumptions C07_inv_mod_zero_for_nonunits_refuted.
+(* the comment of ruinvmod.h "if b is not invertible, a = 0" holds for the body in /repo now (C06-14, 4753202) *)
+Theorem C07_recint_inv_mod_zero_for_nonunits : inv_mod_nonunit_is_zero_stmt.     Proof. exact inv_mod_nonunit_is_zero. Qed.
+Print Assumptions C07_recint_inv_mod_zero_for_nonunits.
+(* HISTORY (bodies that are no longer in /repo): inv_mod before C06-14 returned a Bezout coefficient for non-units (3 mod 9 -> 1);
+   rmsub.h sub(a, b, c) before fix-6 run with the destination being b (p = 101, b = 5, c = 7: 188) *)
+Theorem C07_inv_mod_before_C06_14_zero_for_nonunits_refuted :
+  ~ (forall k c b, 1 < c < Bk k -> 0 <= b < c -> Z.gcd b c <> 1 -> inv_mod_old (Bk k) b c = 0).
+Proof. exact inv_mod_old_nonunit_is_zero_refuted. Qed.
+Print Assumptions C07_inv_mod_before_C06_14_zero_for_nonunits_refuted.
 Theorem C07_rmsub_before_fix6_destination_is_minuend_refuted :
   exists k p b c, RecMod k p /\ canon p b /\ canon p c /\ rm_sub_old_dst_is_b k p b c <> (b - c) mod p /\ ~ canon p (rm_sub_old_dst_is_b k p b c).
 Proof. exact rm_sub_old_dst_is_b_refuted. Qed.
